@@ -118,7 +118,10 @@ def names_ok(prog, names):
 
 
 LIT_POOL = ["0", "1", "2", "-1", "-3", "-2.5", "0.5", "-0.0", "-1j", "2j", "1+2j", "-1-2j", "1e3", "-1e-3", "True", "None", '"a"', "[-1 2]", "-5", "7"]
+BIG = "1" + "0" * 330  # an integer beyond the range of float
 LIT_FORMS = {
+    "(+ %s -" + BIG + ")": 1, "(.bit-length -" + BIG + ")": 0, "(** -" + BIG + " 2)": 0, "(- " + BIG + " %s)": 1, "[-1e400 1e400 (- 1e400) %s]": 1,
+    "(.is-integer -1e400)": 0, "(** -1e400 %s)": 1,
     "(** %s %s)": 2, "(** %s %s %s)": 3, "(- %s)": 1, "(- (- %s))": 1, "(+ %s %s)": 2, "(* %s %s)": 2, "(/ %s %s)": 2, "(// %s %s)": 2, "(% %s %s)": 2,
     "(. %s real)": 1, "(. %s imag)": 1, "(.conjugate %s)": 1, "(.bit-length %s)": 1, "(.is-integer %s)": 1, "(get [1 2 3] %s)": 1, "(get %s 0)": 1,
     "(cut [1 2 3] %s %s)": 2, "(< %s %s %s)": 3, "(bnot %s)": 1, "(not %s)": 1, "(abs %s)": 1, "(if %s %s %s)": 3, "(@ %s %s)": 2, "(<< %s %s)": 2,
@@ -225,7 +228,10 @@ def check_foreign(case):
     except SyntaxError:
         NOTE["skipped"] = "skipped:not-accepted-by-the-compiler"
         return None
-    text = ast.unparse(tree)
+    try:
+        text = ast.unparse(tree)
+    except Exception as e:  # noqa
+        return ("hy2py-raised:" + type(e).__name__, dict(source=src, error=str(e)[:200]))
     try:
         printed = hy2py_text(src)
     except Exception as e:  # noqa
@@ -277,7 +283,10 @@ def check_case(case):
         mod, tree = P.compile_source(src, "vfprog14")
     except SyntaxError:
         return None  # not "a program the compiler accepts"
-    text = ast.unparse(tree)
+    try:
+        text = ast.unparse(tree)
+    except Exception as e:  # noqa
+        return ("hy2py-raised:" + type(e).__name__, dict(source=src, error=str(e)[:200]))
     try:
         printed = hy2py_text(src)
     except Exception as e:  # noqa
